@@ -62,6 +62,8 @@ class C13(Check):
                 cfg["max_iter"] = rng.randint(1, 4)
         if rng.random() < 0.2:
             cfg["max_time"] = rng.choice([1, 2, 5])
+        if cfg.get("optimizer") != "optimize" and rng.random() < 0.1:
+            cfg["debug"] = True   # every assertion - blocking clauses and pushed bounds included - is tracked
         cfg = self.safe_config(cfg, spec)
         plan = {"property": self.pid, "run_seed": run_seed, "sim_version": 1, "tier": tier,
                 "clients": [{"id": "A", "spec": spec, "config": cfg}], "script": []}
